@@ -149,6 +149,14 @@ class Ctx:
         cbm.UINT32_T_MAX = params["cellmax"] if self.patched else 2**32 - 1
         cbm.UINT64_T_MAX = params["totmax"] if self.patched else 2**64 - 1
         self.cellmax = params["cellmax"] if self.patched else (2**32 - 1)
+        self.patch_ok = True
+        if self.patched:   # does the implementation read the limits where we patched them?  If not, the tiny-limit graph cannot be replayed:
+            try:           # skip it (the real-limit traces of TraceSat.tla still judge C16) instead of raising a false alarm
+                probe = CountingBloomFilter(est_elements=1, false_positive_rate=0.35, hash_function=lambda k, d=1: [0, 1][:d] + [0] * max(0, d - 2))
+                probe.add("p", params["cellmax"] + 2)
+                self.patch_ok = max(probe.bloom) == params["cellmax"]
+            except Exception:  # noqa
+                self.patch_ok = False
 
     def close(self):
         shutil.rmtree(self.tmp, ignore_errors=True)
@@ -232,6 +240,9 @@ class Ctx:
         t = self.t
         table = {k: tuple(v) for k, v in e["pos"].items()}
         hist, o, exp = e["h"], e["a"], e["e"]
+        if not self.patch_ok:
+            t.extra["skipped_limit_patch_ineffective"] = t.extra.get("skipped_limit_patch_ineffective", 0) + 1
+            return
         try:
             objs, hf = self.build(table, hist)
         except Exception as exc:  # noqa  a call of the history raised
